@@ -160,14 +160,14 @@ func cmdReplay(args []string) int {
 }
 
 type behState struct {
-	b         behaviour
-	step      int
-	w         *world
-	facts     *string // white-box facts about the index after the current step (computed on the first divergence)
-	seen      map[string]bool // divergence kinds already reported for this step
-	lastBatch string          // path of the latest Batch/Import ("", "small", "block")
-	offContents bool          // VGet already disagreed with the specification's contents before this step
-	lastIds   []string
+	b           behaviour
+	step        int
+	w           *world
+	facts       *string         // white-box facts about the index after the current step (computed on the first divergence)
+	seen        map[string]bool // divergence kinds already reported for this step
+	lastBatch   string          // path of the latest Batch/Import ("", "small", "block")
+	offContents bool            // VGet already disagreed with the specification's contents before this step
+	lastIds     []string
 }
 
 func (rp *replayer) runBehaviour(b behaviour) {
@@ -326,8 +326,9 @@ type hit struct {
 }
 
 // judge applies the two predicates of the specification to one answer.
-//   adm, classes, topk: dictated by the oracle (TLC) for this (query, filter, scope)
-//   exact: the state is in the small regime and the search is a pure vector search
+//
+//	adm, classes, topk: dictated by the oracle (TLC) for this (query, filter, scope)
+//	exact: the state is in the small regime and the search is a pure vector search
 func (rp *replayer) judge(w *world, bs *behState, st stepRec, op map[string]any, q []float32, k int, hits []hit,
 	adm []string, classes [][]string, topk [][]string, exact bool, vectorOrder bool) {
 	rp.out.Checks++
